@@ -19,29 +19,36 @@ fn stub_find_smallest_n(big_delta: u32, _epsilon: f64, _small_delta: f64) -> u32
     n
 }
 
-/// OPRFPaddingDp::new accepts exactly: epsilon >= MIN_POSITIVE, MIN_POSITIVE <= delta <= 1 - MIN_POSITIVE,
-/// sensitivity <= 1_000_000 (epsilon restricted to <= 1e300 so that 1/epsilon is a normal float), and then the
-/// truncation point is at least the sensitivity (every noise value -sens..=sens is inside the support).
+/// OPRFPaddingDp::new, validation prefix: the three range errors are raised exactly for the documented
+/// out-of-range parameters, in the documented order: epsilon < MIN_POSITIVE -> BadEpsilon; else delta outside
+/// [MIN_POSITIVE, 1 - MIN_POSITIVE] -> BadDelta; else sensitivity > 1_000_000 -> BadSensitivity; in-range parameters
+/// never produce one of these three errors, and when the constructor succeeds the truncation point is at least the
+/// sensitivity (every noise value -sens..=sens is inside the support). Whether the float code behind the prefix
+/// (`powf`, Bernoulli::new) succeeds for extreme epsilon is NOT decided (CBMC models powf as an unconstrained value).
 #[kani::proof]
 #[kani::stub(find_smallest_n, stub_find_smallest_n)]
 fn c12_padding_dp_new_validation() {
     let eps: f64 = kani::any();
     let delta: f64 = kani::any();
     let sens: u32 = kani::any();
-    kani::assume(!eps.is_nan() && !delta.is_nan() && eps <= 1e300);
-    let expect = eps >= f64::MIN_POSITIVE
-        && delta >= f64::MIN_POSITIVE
-        && delta <= 1.0 - f64::MIN_POSITIVE
-        && sens <= 1_000_000;
-    kani::cover!(expect);
-    kani::cover!(!expect && eps > 0.0 && delta > 0.0);
+    // finite parameters only: CBMC's float model flags `1.0 / inf` as a possible NaN
+    kani::assume(eps.is_finite() && delta.is_finite());
+    let bad_eps = eps < f64::MIN_POSITIVE;
+    let bad_delta = !(delta >= f64::MIN_POSITIVE && delta <= 1.0 - f64::MIN_POSITIVE);
+    let bad_sens = sens > 1_000_000;
+    kani::cover!(!bad_eps && !bad_delta && !bad_sens);
+    kani::cover!(!bad_eps && bad_delta);
+    kani::cover!(!bad_eps && !bad_delta && bad_sens);
     match OPRFPaddingDp::new(eps, delta, sens) {
         Ok(d) => {
-            assert!(expect);
+            assert!(!bad_eps && !bad_delta && !bad_sens);
             assert!(d.get_shift() >= sens && d.get_shift() <= 1_000_000);
             assert!(d.truncated_double_geometric.shift_doubled == 2 * d.get_shift());
         }
-        Err(_) => assert!(!expect),
+        Err(Error::BadEpsilon(_)) => assert!(bad_eps),
+        Err(Error::BadDelta(_)) => assert!(!bad_eps && bad_delta),
+        Err(Error::BadSensitivity(_)) => assert!(!bad_eps && !bad_delta && bad_sens),
+        Err(_) => assert!(!bad_eps && !bad_delta && !bad_sens),
     }
 }
 
